@@ -95,3 +95,25 @@ Example C13_hypotheses_satisfiable :
   expected h = [(20%N, 2); (30%N, 1)].
 Proof. split; [exact ex_cfg_fixed|exact busy_state]. Qed.
 Print Assumptions C13_hypotheses_satisfiable.
+
+(* "Whenever every request has completed or failed and every challenge was answered or expired, no
+   exemption remains, no matter how the remote side behaved": beyond [C13_all_done_no_exemption]
+   (nothing outstanding => no exemption), the handler also GETS there on its own: after any run, when
+   only time passes, a bounded number of ticks settles every request and every challenge and leaves
+   no exemption (Proofs/HandlerA_Drain*.v; hypotheses explained at C04_drain in Properties/C04.v). *)
+From Discv5V Require Import Proofs.HandlerA_Ledger Proofs.HandlerA_Nonce Proofs.HandlerA_Progress
+  Proofs.HandlerA_Drain Proofs.HandlerA_Drain2.
+Theorem C13_time_alone_clears_every_exemption :
+  forall c evs ticks T,
+  fixed_cfg c -> fresh_run c init_state evs -> times_le T evs ->
+  let h := fst (run c init_state evs) in
+  tick_schedule c (next_bound c T) ticks -> fresh_run c h ticks ->
+  drain_bound c h <= length ticks ->
+  let h' := fst (run c h ticks) in
+  active h' = [] /\ challenges h' = [] /\ expected h' = [].
+Proof.
+  intros c evs ticks T F R TL h TS RT B h'.
+  destruct (drain_after c evs ticks T F R TL TS RT B) as ((A & _ & C & _ & E) & _).
+  repeat split; assumption.
+Qed.
+Print Assumptions C13_time_alone_clears_every_exemption.
